@@ -238,8 +238,8 @@ def run_config(ctx, rep, cfg, F):
                 n_cb += len(seen)
                 rep.ok("R10.4", where, "entries=%d" % len(valued),
                        sample={"entries": valued, "order": nodes_seen, "removed": sorted(removed)} if len(valued) >= 3 and len(removed) >= 1 else None)
-    rep.floor("predicate evaluations checked (%s)" % cfg, n_cb, 5000)
-    rep.floor("selection / removal paths checked (%s)" % cfg, n, 3000)
+    rep.floor("predicate evaluations checked (%s)" % cfg, n_cb, 20000)
+    rep.floor("selection / removal paths checked (%s)" % cfg, n, 12000)
 
 
 def finalize(ctx, rep):
